@@ -427,7 +427,11 @@ pub fn eval_c03(st: &State) -> Eval {
                                     replay_text(check, st, &[]),
                                 );
                             }
-                            if !((r.n_in + rr.n_in).length() <= 1e-9) {
+                            // the normal is (right + shift - left) normalised, formed in global coordinates: its rounding
+                            // error is u x magnitude / distance between the two generators (twice the distance to the face)
+                            let gdist = 2. * (r.centroid - st.gen_loc(i)).dot(r.n_in).abs();
+                            let ntol = (1e-9f64).max(64. * f64::EPSILON * t.mag / gdist.max(1e-300));
+                            if !((r.n_in + rr.n_in).length() <= ntol) {
                                 e.issue(
                                     "reciprocal-normal",
                                     &case,
@@ -704,6 +708,7 @@ pub fn eval_c04(st: &State) -> Eval {
             let mut div = 0.;
             let mut scale = 0.;
             let mut used_oracle = false;
+            let mut skipped_bound = 0.;
             for f in c.faces(&v) {
                 let is_left = f.left() == i && !(f.right() == Some(i) && false);
                 // a face with left == right == i (own periodic image) is listed once, as left
@@ -732,8 +737,17 @@ pub fn eval_c04(st: &State) -> Eval {
                     }
                 }
                 closure += area * n_out;
-                div += area * n_out.dot(cen - g);
                 scale += area.abs();
+                // A face whose area is at the rounding level of this cell (a clipping plane that only touches the cell:
+                // its signed triangles cancel up to rounding, the residue can even be negative) has no meaningful centroid
+                // - the library reports (0,0,0) for a non-positive area - and is negligible in the sense of DESIGN 1.5:
+                // it enters the closure sum, not the first-moment sum (its true contribution is below skipped_bound).
+                let negligible = t.neg_area + 8. * pg * t.l.powi((st.dim as i32 - 2).max(0));
+                if area.abs() <= negligible {
+                    skipped_bound += negligible * 2. * oc[i].max_vertex_dist;
+                    continue;
+                }
+                div += area * n_out.dot(cen - g);
             }
             // faces on the right side of shifted faces are not listed by the right cell: the cell's own
             // list is complete only if it owns all its shifted faces, which the ownership rule guarantees
@@ -744,7 +758,7 @@ pub fn eval_c04(st: &State) -> Eval {
                 e.issue("closure", &case, format!("cell {}: sum of area*outward normal = {} (tol {:e})", i, fmt_vec(closure), ctol), rp());
             }
             let vol = c.volume();
-            let vtol = (pg * oc[i].surface + 1e-12 * oc[i].volume.abs()) * 4. + 1e-9 * vol.abs();
+            let vtol = (pg * oc[i].surface + 1e-12 * oc[i].volume.abs()) * 4. + 1e-9 * vol.abs() + skipped_bound;
             if !((div / d - vol).abs() <= vtol) {
                 e.issue(
                     "divergence",
